@@ -375,12 +375,21 @@ func runEnc[T any](l *listRun, ls listSpec, mk func(i int, c caseSpec) T) {
 		}
 		return mk(i, c)
 	}
+	listedPred := func(i int, c caseSpec) test.AssertErrorFunc {
+		if !c.adjustPred {
+			return predicate(c, i)
+		}
+		if c.pred == pNone {
+			return test.AnyError // listed as if an error were expected; the hook clears it
+		}
+		return nil // listed as if none were expected; the hook installs the predicate
+	}
 	switch ls.enc {
 	case kText:
 		cases := make([]test.CaseText[T], len(ls.cases))
 		for i, c := range ls.cases {
 			cases[i] = test.CaseText[T]{Constraint: constraints[c.constraint], Before: hook[test.CaseText[T]](l, i, c.before, "before"), After: hook[test.CaseText[T]](l, i, c.after, "after"),
-				Error: predicate(c, i), Data: listedData(i, c), Value: listedValue(i, c)}
+				Error: listedPred(i, c), Data: listedData(i, c), Value: listedValue(i, c)}
 			if c.adjust {
 				i, c := i, c
 				cases[i].Before = func(idx int, cc *test.CaseText[T]) error {
@@ -388,6 +397,9 @@ func runEnc[T any](l *listRun, ls listSpec, mk func(i int, c caseSpec) T) {
 					l.seen("before", i)
 					cc.Data = rightData(i, c)
 					cc.Value = mk(i, c)
+					if c.adjustPred {
+						cc.Error = predicate(c, i)
+					}
 					return nil
 				}
 			}
@@ -401,7 +413,7 @@ func runEnc[T any](l *listRun, ls listSpec, mk func(i int, c caseSpec) T) {
 		cases := make([]test.CaseBinary[T], len(ls.cases))
 		for i, c := range ls.cases {
 			cases[i] = test.CaseBinary[T]{Constraint: constraints[c.constraint], Before: hook[test.CaseBinary[T]](l, i, c.before, "before"), After: hook[test.CaseBinary[T]](l, i, c.after, "after"),
-				Error: predicate(c, i), Data: binData(listedData(i, c), c), Value: listedValue(i, c)}
+				Error: listedPred(i, c), Data: binData(listedData(i, c), c), Value: listedValue(i, c)}
 			if c.adjust {
 				i, c := i, c
 				cases[i].Before = func(idx int, cc *test.CaseBinary[T]) error {
@@ -409,6 +421,9 @@ func runEnc[T any](l *listRun, ls listSpec, mk func(i int, c caseSpec) T) {
 					l.seen("before", i)
 					cc.Data = binData(rightData(i, c), c)
 					cc.Value = mk(i, c)
+					if c.adjustPred {
+						cc.Error = predicate(c, i)
+					}
 					return nil
 				}
 			}
@@ -422,7 +437,7 @@ func runEnc[T any](l *listRun, ls listSpec, mk func(i int, c caseSpec) T) {
 		cases := make([]test.CaseJSON[T], len(ls.cases))
 		for i, c := range ls.cases {
 			cases[i] = test.CaseJSON[T]{Constraint: constraints[c.constraint], Before: hook[test.CaseJSON[T]](l, i, c.before, "before"), After: hook[test.CaseJSON[T]](l, i, c.after, "after"),
-				Error: predicate(c, i), Data: listedData(i, c), Value: listedValue(i, c)}
+				Error: listedPred(i, c), Data: listedData(i, c), Value: listedValue(i, c)}
 			if c.adjust {
 				i, c := i, c
 				cases[i].Before = func(idx int, cc *test.CaseJSON[T]) error {
@@ -430,6 +445,9 @@ func runEnc[T any](l *listRun, ls listSpec, mk func(i int, c caseSpec) T) {
 					l.seen("before", i)
 					cc.Data = rightData(i, c)
 					cc.Value = mk(i, c)
+					if c.adjustPred {
+						cc.Error = predicate(c, i)
+					}
 					return nil
 				}
 			}
@@ -673,6 +691,9 @@ func normalise(ls *listSpec) {
 			// a nil receiver panics before the scripted method body can announce itself;
 			// a passing Before hook marks the case boundary for the attribution instead
 			c.before = hPass
+		}
+		if c.adjustPred && !c.adjust {
+			c.adjustPred = false // only a case with an adjusting Before hook has one that installs the predicate
 		}
 		if c.payload == "" {
 			c.payload = "p"
